@@ -22,7 +22,7 @@ func verifAccess(method, op, on string, mu *sync.RWMutex) {
 	if VerifHook == nil {
 		return
 	}
-	state := "" // "" = adequately held, "!none" = not held, "!shared" = a write under a shared lock
+	state := ""       // "" = adequately held, "!none" = not held, "!shared" = a write under a shared lock
 	if mu.TryLock() { // succeeds only if not held at all
 		mu.Unlock()
 		state = "!none"
